@@ -12,10 +12,20 @@ thread_local! {
     static LIVE: Cell<isize> = const { Cell::new(0) };
     static PEAK: Cell<isize> = const { Cell::new(0) };
     static ALLOCS: Cell<u64> = const { Cell::new(0) };
+    static PAUSED: Cell<bool> = const { Cell::new(false) };
+}
+
+/// While paused, allocations of the calling thread are not counted (used to
+/// keep the monitor's own buffers out of the measurement).
+pub fn set_paused(p: bool) {
+    PAUSED.with(|x| x.set(p));
 }
 
 #[inline]
 fn add(n: isize) {
+    if PAUSED.try_with(|p| p.get()).unwrap_or(false) {
+        return;
+    }
     let _ = LIVE.try_with(|l| {
         let v = l.get() + n;
         l.set(v);
